@@ -5,7 +5,7 @@ use serde::{Deserialize, Serialize};
 use crate::ast::Ty;
 
 /// Untyped value domain of the reference evaluator.
-#[derive(Clone, Debug, PartialEq, Eq, Hash, PartialOrd, Ord, Serialize, Deserialize)]
+#[derive(Clone, Debug, PartialEq, Eq, Hash, Serialize, Deserialize)]
 pub enum Val {
    I(i64),
    /// f64 stored as bits (only produced by `mean`)
@@ -24,6 +24,52 @@ pub enum Val {
    CTop,
    /// HProd(u32, Dual<u32>) stored as its two raw components
    Prod(Box<Val>, Box<Val>),
+}
+
+impl Val {
+   fn rank(&self) -> u8 {
+      match self {
+         Val::I(_) => 0,
+         Val::F(_) => 1,
+         Val::B(_) => 2,
+         Val::S(_) => 3,
+         Val::None_ => 4,
+         Val::Some_(_) => 5,
+         Val::Tup(_) => 6,
+         Val::Dual(_) => 7,
+         Val::Set(_) => 8,
+         Val::BTop => 9,
+         Val::CBot => 10,
+         Val::CConst(_) => 11,
+         Val::CTop => 12,
+         Val::Prod(..) => 13,
+      }
+   }
+}
+
+/// Total order that agrees with Rust's `Ord` of the corresponding column types where the aggregators rely on it
+/// (integers, strings, Option: None < Some, tuples: lexicographic, Dual: reversed).
+impl Ord for Val {
+   fn cmp(&self, other: &Self) -> std::cmp::Ordering {
+      use Val::*;
+      match (self, other) {
+         (I(a), I(b)) => a.cmp(b),
+         (F(a), F(b)) => f64::from_bits(*a).partial_cmp(&f64::from_bits(*b)).unwrap_or(std::cmp::Ordering::Equal),
+         (B(a), B(b)) => a.cmp(b),
+         (S(a), S(b)) => a.cmp(b),
+         (Some_(a), Some_(b)) => a.cmp(b),
+         (Tup(a), Tup(b)) => a.cmp(b),
+         (Dual(a), Dual(b)) => b.cmp(a),
+         (Set(a), Set(b)) => a.cmp(b),
+         (CConst(a), CConst(b)) => a.cmp(b),
+         (Prod(a0, a1), Prod(b0, b1)) => (a0, a1).cmp(&(b0, b1)),
+         (a, b) => a.rank().cmp(&b.rank()),
+      }
+   }
+}
+
+impl PartialOrd for Val {
+   fn partial_cmp(&self, other: &Self) -> Option<std::cmp::Ordering> { Some(self.cmp(other)) }
 }
 
 impl Val {
